@@ -51,6 +51,7 @@ struct World {
 };
 
 static World* W;
+static int g_linger = 0;   // C07_PAD runs: scheduling points a task spends after each child submission
 
 static int run_task(int id);
 
@@ -84,7 +85,10 @@ static int run_task(int id) {
   W->log.push_back(id);
   if (!W->ex->is_running_in()) t.scope_ok = false;
   if (W->kind != 'I' && InplaceExecutor::instance().is_running_in()) t.other_scope = true;
-  for (int c : t.children) submit_task(c, id);
+  for (int c : t.children) {
+    submit_task(c, id);
+    if (g_linger) for (int k = 0; k < g_linger; ++k) sched_yield();   // keep the parent busy: idle workers get to steal
+  }
   t.finished++;
   return id * 7 + 1;
 }
@@ -119,7 +123,10 @@ static void park_padding_threads() {
   const char* e = getenv("C07_PAD");
   int n = e ? atoi(e) : 0;
   if (n <= 0) return;
-  static std::mutex mu; static std::condition_variable cv; static int ready = 0; static bool never = false;
+  g_linger = 300;   // a scan over 126 idle queues takes a few hundred scheduling points
+  // leaked on purpose: the parked threads wait on them until the process exits
+  static std::mutex& mu = *new std::mutex; static std::condition_variable& cv = *new std::condition_variable;
+  static int ready = 0; static bool never = false;
   for (int i = 0; i < n; ++i) {
     std::thread([] {
       (void)ThreadId::current_thread_id<ConcurrentBoundedQueue<ThreadPoolExecutor::Task>>();
@@ -240,6 +247,7 @@ int main() {
     if (world.inplace_late) inplace = false;
     std::string run;
     for (size_t i = 0; i < world.log.size(); ++i) run += (i ? "," : "") + std::to_string(world.log[i]);
+    if (getenv("C07_DEBUG")) fprintf(stderr, "tidend=%u\n", (unsigned)ThreadId::end<ConcurrentBoundedQueue<ThreadPoolExecutor::Task>>());
     printf("%s ok steps=%llu pre=%llu | run=%s norun=%s late=%zu | once=%d drain=%d ready=%d scope=%d failed=%d value=%d quiet=%d inplace=%d\n",
            id, (unsigned long long)r.steps, (unsigned long long)r.preemptions, run.c_str(), norun.c_str(),
            world.log.size() - world.log_at_stop, once, drain, ready, scope, failed, value, quiet, inplace);
